@@ -4,7 +4,8 @@ import Eliot.Conc.HandoverSkel
 logging threads inside `Destinations.send` versus the thread that performs the *first*
 `Destinations.add`, at source-line granularity.  The adder's statement sequence is *interpreted
 from the skeleton* (`HandoverSkel.add`, regenerated from the source by extractor E8); the logger is
-the `for dest in self._destinations: dest(message)` loop of the assumed `send` skeleton.
+the `for dest in self._destinations: dest(message)` loop of the pinned `send` skeleton.
+This is the model of the code BEFORE the repair (`pinnedSkel`); see `HandoverFix.lean` for the repaired code.
 
 Python facts the model reproduces: `for dest in self._destinations` evaluates the attribute once
 and iterates over *that list object*; `add` replaces the attribute by a new list object and extends
@@ -111,7 +112,7 @@ def step (s : State) : Tid → Option State
         | .ifBufferedResend =>
           if s.hasBufRef && !s.buf.isEmpty then some { s with addPc := .resendIter 0, addOps := r }
           else some { s with addOps := r }
-        | .unknown => none
+        | _ => none     -- statements of the repaired shape and unknown ones: not this model's business
     | .resendIter j =>
       match s.buf[j]? with
       | some m => some { s with addPc := .resendAtSend m (j + 1) }
